@@ -734,6 +734,41 @@ def _sym_path_join(a: Any, *p: Any) -> Any:
     return path
 
 
+def _sym_normpath(path: Any) -> Any:
+    """posixpath.normpath over possibly symbolic str (same algorithm as CPython's)"""
+    if not is_sym(path):
+        return _pp_mod.normpath(path)
+    if len(path) == 0:
+        return '.'
+    initial = 0
+    if path.startswith('/'):
+        initial = 2 if (path.startswith('//') and not path.startswith('///')) else 1
+    new: list = []
+    for comp in path.split('/'):
+        if len(comp) == 0 or bool(comp == '.'):
+            continue
+        if not bool(comp == '..') or (not initial and not new) or (new and bool(new[-1] == '..')):
+            new.append(comp)
+        elif new:
+            new.pop()
+    out: Any = lift('/' * initial)
+    for i, comp in enumerate(new):
+        if i:
+            out = out + '/'
+        out = out + comp
+    if len(out) == 0:
+        return '.'
+    return out
+
+
+def _sym_abspath(path: Any) -> Any:
+    if not is_sym(path):
+        return _pp_mod.abspath(path)
+    if not path.startswith('/'):
+        path = _sym_path_join(_os_mod.getcwd(), path)
+    return _sym_normpath(path)
+
+
 def _fs(name: str, real: Any) -> Any:
     def call(*a: Any, **k: Any) -> Any:
         h = FS_HOOK[0]
@@ -747,6 +782,8 @@ def _fs(name: str, real: Any) -> Any:
 _ospath_facade = types.ModuleType('posixpath')
 _ospath_facade.__dict__.update(vars(_pp_mod))
 _ospath_facade.join = _sym_path_join  # type: ignore
+_ospath_facade.normpath = _sym_normpath  # type: ignore
+_ospath_facade.abspath = _sym_abspath  # type: ignore
 for _n in ('isdir', 'exists', 'isfile', 'getmtime'):
     setattr(_ospath_facade, _n, _fs('path_' + _n, getattr(_pp_mod, _n)))
 _os_facade = types.ModuleType('os')
@@ -1035,8 +1072,8 @@ def _h_method(obj: Any, name: str, *args: Any, **kw: Any) -> Any:
             return getattr(lift(obj), name)(*args, **kw)
         return getattr(obj, name)(*args, **kw)
     if name in ('get', 'pop') and args and is_sym(args[0]) \
-            and isinstance(obj, dict) and not _all_sym_keys(obj):
-        for k in obj:
+            and isinstance(obj, _MAPPINGS) and not _all_sym_keys(obj):
+        for k in list(obj.keys()):
             c = (args[0] == k)
             if c is NotImplemented or c is False:
                 continue
@@ -1048,6 +1085,12 @@ def _h_method(obj: Any, name: str, *args: Any, **kw: Any) -> Any:
             raise KeyError(args[0])
         return None
     return getattr(obj, name)(*args, **kw)
+
+
+import weakref as _weakref
+import collections as _collections
+# mapping types whose probes go through hash(): a symbolic key is found by symbolic equality instead
+_MAPPINGS = (dict, _weakref.WeakValueDictionary, _weakref.WeakKeyDictionary, _collections.UserDict)
 
 
 def _const_hash(x: Any) -> bool:
@@ -1088,7 +1131,7 @@ def _h_in(x: Any, container: Any) -> Any:
     t = type(container)
     if t is SymRangeSet:
         return container.contains_term(x)
-    if t in (set, frozenset, dict):
+    if t in (set, frozenset, dict) or isinstance(container, _MAPPINGS):
         if not container:
             return False
         if is_sym(x):
@@ -1123,6 +1166,15 @@ def _h_item(obj: Any, k: Any) -> Any:
     if tk is SymInt or tk is SymUid:
         if type(obj) in _STR_TYPES:
             return lift(obj)[k]
+    elif isinstance(obj, _MAPPINGS) and isinstance(k, _SymSeq) and _const_hash(k) and not _all_sym_keys(obj):
+        # a symbolic str/bytes key into a mapping holding real keys: the constant hash would miss
+        for q in list(obj.keys()):
+            c = (k == q)
+            if c is NotImplemented or c is False:
+                continue
+            if c:
+                return obj[q]
+        raise KeyError(k)
     return obj[k]
 
 
